@@ -9,7 +9,8 @@ nested to any depth - a cleanup may register cleanups; `KeyboardInterrupt`/`Syst
 Deferred of any stage), every timeout, every set of interrupt instants, both runner variants, both logging options.
 The reactor runs in *iterations* (`ReactorBase.runUntilCurrent`): a call scheduled during an iteration - even with
 delay 0 - waits for the next one; the result of `Spinner.run` is determined when `reactor.run()` returns, before the
-shake-out iterations of `Spinner._clean`.
+shake-out iterations of `Spinner._clean`; the callbacks `Spinner.run` hung on the chain's final Deferred are dead from then on
+(`Chain.over`): a chain that ends during those iterations records nothing.
 This property is *partial* with respect to the Twisted runtime: Deferred chaining, the log publisher and
 `DebugInfo`/GC are modelled (see `Model/AsyncRun.lean`), and covered only by the correspondence check.
 
@@ -40,17 +41,17 @@ open TTV.Reactor TTV.AsyncRun TTV.Spec.C14
 
 /-! the chain never touches the list of log observers nor the iteration counter -/
 def Keeps (f : Chain → Chain) : Prop :=
-  ∀ c, (f c).observers = c.observers ∧ (f c).iter = c.iter ∧ (f c).stages = c.stages ∧ (f c).live = c.live
+  ∀ c, (f c).observers = c.observers ∧ (f c).iter = c.iter ∧ (f c).stages = c.stages ∧ (f c).live = c.live ∧ (f c).over = c.over
 
-theorem side_keeps (s : Side) : Keeps (Chain.side s) := fun c => by cases s <;> exact ⟨rfl, rfl, rfl, rfl⟩
+theorem side_keeps (s : Side) : Keeps (Chain.side s) := fun c => by cases s <;> exact ⟨rfl, rfl, rfl, rfl, rfl⟩
 theorem finish_keeps : Keeps Chain.finish := fun c => by
   unfold Chain.finish
-  cases c.lastExc <;> simp only [] <;> split <;> exact ⟨rfl, rfl, rfl, rfl⟩
-theorem noteMain_keeps (r : Option Exc) : Keeps (Chain.noteMain r) := fun c => by cases r <;> exact ⟨rfl, rfl, rfl, rfl⟩
-theorem noteCleanup_keeps (r : Option Exc) : Keeps (Chain.noteCleanup r) := fun c => by cases r <;> exact ⟨rfl, rfl, rfl, rfl⟩
+  cases c.lastExc <;> simp only [] <;> split <;> exact ⟨rfl, rfl, rfl, rfl, rfl⟩
+theorem noteMain_keeps (r : Option Exc) : Keeps (Chain.noteMain r) := fun c => by cases r <;> exact ⟨rfl, rfl, rfl, rfl, rfl⟩
+theorem noteCleanup_keeps (r : Option Exc) : Keeps (Chain.noteCleanup r) := fun c => by cases r <;> exact ⟨rfl, rfl, rfl, rfl, rfl⟩
 theorem register_keeps (cs : List Stage) : Keeps (Chain.register cs) := fun c => by
   induction cs generalizing c with
-  | nil => exact ⟨rfl, rfl, rfl, rfl⟩
+  | nil => exact ⟨rfl, rfl, rfl, rfl, rfl⟩
   | cons s rest ih =>
     simp only [Chain.register, List.foldl_cons] at ih ⊢
     exact ih _
@@ -59,7 +60,7 @@ theorem register_observers (cs : List Stage) (c : Chain) : (Chain.register cs c)
 
 macro "obs_tac" : tactic =>
   `(tactic| first
-    | exact fun _ => ⟨rfl, rfl, rfl, rfl⟩
+    | exact fun _ => ⟨rfl, rfl, rfl, rfl, rfl⟩
     | exact side_keeps _
     | exact finish_keeps
     | exact noteMain_keeps _
@@ -158,8 +159,22 @@ theorem launch_reach (n : SName) (st : Stage) (w : W) : Reach (launchCalls st) w
   | fire d => exact (h12.trans (Reach.sched d (.stageDone none) (by simp) (Reach.refl _))).cast (by simp [behCalls])
   | failD d k => exact (h12.trans (Reach.sched d (.stageDone (some k)) (by simp) (Reach.refl _))).cast (by simp [behCalls])
 
-theorem finishChain_reach (w : W) : Reach 0 w (finishChain w) :=
-  Reach.upd Chain.finish (Reach.deliv _ (Reach.refl _))
+theorem finish_over (c : Chain) : c.finish.over = c.over := (finish_keeps c).2.2.2.2
+
+theorem finishChain_over {w : W} (h : w.u.over = true) : finishChain w = updU Chain.finish w := by
+  have : (updU Chain.finish w).u.over = true := by show w.u.finish.over = true; rw [finish_over]; exact h
+  simp only [finishChain, this, if_true]
+
+theorem finishChain_live {w : W} (h : w.u.over = false) :
+    finishChain w = deliver (.value (if w.u.finish.fails then 0 else 1)) (updU Chain.finish w) := by
+  have : (updU Chain.finish w).u.over = false := by show w.u.finish.over = false; rw [finish_over]; exact h
+  simp only [finishChain, this, Bool.false_eq_true, if_false]
+  rfl
+
+theorem finishChain_reach (w : W) : Reach 0 w (finishChain w) := by
+  cases h : w.u.over with
+  | true => rw [finishChain_over h]; exact Reach.upd Chain.finish (Reach.refl _)
+  | false => rw [finishChain_live h]; exact Reach.upd Chain.finish (Reach.deliv _ (Reach.refl _))
 
 def stackCalls (stack : List (Nat × Stage)) : Nat := (stack.map fun ic => ic.2.calls).sum
 
@@ -179,7 +194,10 @@ def rem (p : Prog) (c : Chain) : Nat :=
 @[simp] theorem updU_stopPatched (f : Chain → Chain) (w : W) : (updU f w).stopPatched = w.stopPatched := rfl
 @[simp] theorem updU_sels (f : Chain → Chain) (w : W) : (updU f w).sels = w.sels := rfl
 
-theorem finishChain_u (w : W) : (finishChain w).u = Chain.finish w.u := by simp [finishChain]
+theorem finishChain_u (w : W) : (finishChain w).u = Chain.finish w.u := by
+  cases h : w.u.over with
+  | true => rw [finishChain_over h]; rfl
+  | false => rw [finishChain_live h]; simp
 
 theorem Chain.finish_pos (c : Chain) : c.finish.pos = .done := rfl
 
@@ -400,7 +418,7 @@ theorem afterSetUp_reach (p : Prog) (r : Option Exc) (w : W) :
   | none => exact startBody_reach p w
   | some e =>
     obtain ⟨k, hk, hk2⟩ := cleanUp_reach p (updU (Chain.caught e) w)
-    refine ⟨k, Reach.upd _ hk (fun _ => ⟨rfl, rfl, rfl, rfl⟩), ?_⟩
+    refine ⟨k, Reach.upd _ hk (fun _ => ⟨rfl, rfl, rfl, rfl, rfl⟩), ?_⟩
     have hst : stackCalls (updU (Chain.caught e) w).u.stack = stackCalls w.u.stack := rfl
     simp only [afterSetUp]
     omega
@@ -1190,7 +1208,11 @@ structure Fin (p : Prog) (w : W) : Prop where
     sdOf w.calls = [] ∧ Book pre w.u ∧ w.u.pos = .done ∧
     (w.u.fails = true ↔ (∃ x ∈ pre, behOk x.2.beh = false) ∨ w.u.forced = true) ∧
     (∀ b, w.sp.success = some b → b = (if w.u.fails then 0 else 1) ∧ InTimeP p pre w.u.stages) ∧
-    (w.sp.success = none → allSyncL pre = false ∧ ∃ over, overAt (some 0) pre w.u.stages = some over ∧ p.timeout ≤ over)
+    (w.sp.success = none →
+      -- the chain ended when `Spinner.run` had already left `reactor.run()`: nothing was recorded
+      (w.sp.tcall = .pending ∧ w.u.over = true) ∨
+      -- or the timeout had fired before
+      (allSyncL pre = false ∧ ∃ over, overAt (some 0) pre w.u.stages = some over ∧ p.timeout ≤ over))
 
 def CInv (p : Prog) (w : W) : Prop := Susp p w ∨ Fin p w
 
@@ -1548,17 +1570,10 @@ theorem finish_ki (c : Chain) :
 theorem finishChain_fin {p : Prog} {w : W} {pre : List (SName × Stage)} (h : Run p w pre []) : Fin p (finishChain w) := by
   obtain ⟨f1, f2, f3, f4, f5, f6, f7, f8⟩ := finish_fields w.u
   have hu : (finishChain w).u = w.u.finish := finishChain_u w
-  have hcalls : sdOf (finishChain w).calls = [] := by
-    simp only [finishChain, deliver_calls]
-    split
-    · rw [sdOf_filter]; exact h.noSD
-    · exact h.noSD
   have hfails : w.u.finish.fails = true ↔ (∃ x ∈ pre, behOk x.2.beh = false) ∨ w.u.finish.forced = true := by
     rw [f1, f2, ← h.failsOk]
     simp only [Bool.or_eq_true]
-  refine ⟨pre, by simpa using h.path, by rw [hu, f3]; exact h.len, by rw [hu, f3]; exact h.seq, hcalls, ?_, by rw [hu]; exact f7,
-    by rw [hu]; exact hfails, ?_, ?_⟩
-  · rw [hu]
+  have hbook : Book pre w.u.finish := by
     obtain ⟨g1, g2, g3⟩ := finish_ki w.u
     exact ⟨by rw [f2]; exact h.book.forced, by rw [f4]; exact h.book.logged, by rw [f5]; exact h.book.dropped,
       f8 h.book.excs, by rw [f3, f6]; exact h.book.obs, fun x hx h1 h2 => g1 _ (h.book.kiMain x hx h1 h2),
@@ -1566,30 +1581,50 @@ theorem finishChain_fin {p : Prog} {w : W} {pre : List (SName × Stage)} (h : Ru
         rcases hk with hk | hk
         · exact g2 hk
         · rw [g3] at hk; exact Or.inr hk)⟩
-  · intro b hb
-    by_cases hp : w.sp.tcall = .pending
-    · have hs : (finishChain w).sp.success = some (if w.u.finish.fails then 0 else 1) := by
-        simp [finishChain, deliver, hp]
-        rfl
-      rw [hs] at hb
-      injection hb with hb
-      refine ⟨by rw [hu, ← hb], ?_⟩
-      rw [hu, f3]
-      exact ⟨w.now, h.over, h.tA hp⟩
-    · have : (finishChain w).sp.success = none := by
-        simp only [finishChain]
-        rw [deliver_of_not_pending _ _ (by simpa using hp)]
-        simpa using h.unrec
-      rw [this] at hb; cases hb
-  · intro hn
-    by_cases hp : w.sp.tcall = .pending
-    · have hs : (finishChain w).sp.success = some (if w.u.finish.fails then 0 else 1) := by
-        simp [finishChain, deliver, hp]
-        rfl
-      rw [hs] at hn; cases hn
-    · obtain ⟨h1, h2⟩ := h.tB hp
-      rw [hu, f3]
-      exact ⟨h1, w.now, h.over, h2⟩
+  cases hov : w.u.over with
+  | true =>
+    -- the run is over: the final Deferred fires into dead callbacks
+    have hw : finishChain w = updU Chain.finish w := finishChain_over hov
+    refine ⟨pre, by simpa using h.path, by rw [hu, f3]; exact h.len, by rw [hu, f3]; exact h.seq, by rw [hw]; exact h.noSD,
+      by rw [hu]; exact hbook, by rw [hu]; exact f7, by rw [hu]; exact hfails, ?_, ?_⟩
+    · intro b hb; rw [hw] at hb; have := h.unrec; simp only [updU_sp] at hb; rw [this] at hb; cases hb
+    · intro _
+      by_cases hp : w.sp.tcall = .pending
+      · exact Or.inl ⟨by rw [hw]; exact hp, by rw [hu, finish_over]; exact hov⟩
+      · obtain ⟨h1, h2⟩ := h.tB hp
+        rw [hu, f3]
+        exact Or.inr ⟨h1, w.now, h.over, h2⟩
+  | false =>
+    have hw := finishChain_live hov
+    have hcalls : sdOf (finishChain w).calls = [] := by
+      rw [hw]
+      simp only [deliver_calls]
+      split
+      · rw [sdOf_filter]; exact h.noSD
+      · exact h.noSD
+    refine ⟨pre, by simpa using h.path, by rw [hu, f3]; exact h.len, by rw [hu, f3]; exact h.seq, hcalls, by rw [hu]; exact hbook,
+      by rw [hu]; exact f7, by rw [hu]; exact hfails, ?_, ?_⟩
+    · intro b hb
+      by_cases hp : w.sp.tcall = .pending
+      · have hs : (finishChain w).sp.success = some (if w.u.finish.fails then 0 else 1) := by
+          rw [hw]; simp [deliver, hp]
+        rw [hs] at hb
+        injection hb with hb
+        refine ⟨by rw [hu, ← hb], ?_⟩
+        rw [hu, f3]
+        exact ⟨w.now, h.over, h.tA hp⟩
+      · have : (finishChain w).sp.success = none := by
+          rw [hw, deliver_of_not_pending _ _ (by simpa using hp)]
+          simpa using h.unrec
+        rw [this] at hb; cases hb
+    · intro hn
+      by_cases hp : w.sp.tcall = .pending
+      · have hs : (finishChain w).sp.success = some (if w.u.finish.fails then 0 else 1) := by
+          rw [hw]; simp [deliver, hp]
+        rw [hs] at hn; cases hn
+      · obtain ⟨h1, h2⟩ := h.tB hp
+        rw [hu, f3]
+        exact Or.inr ⟨h1, w.now, h.over, h2⟩
 
 theorem launch_stack (n : SName) (st : Stage) (w : W) : (launch n st w).u.stack = w.u.stack ∧
     (launch n st w).u.nextCleanup = w.u.nextCleanup := ⟨(launch_frame n st w).2.1, (launch_frame n st w).2.2⟩
@@ -1899,13 +1934,15 @@ theorem future_congr (p : Prog) (c c' : Chain) (hpos : c.pos = c'.pos) (hs : c.s
   have h3 := register_congr p.tearDown.cleanups c c' hs hn
   simp only [future, hpos, cleanupsOf_congr _ _ h2.1 h2.2, cleanupsOf_congr _ _ h3.1 h3.2, cleanupsOf_congr c c' hs hn]
 
-theorem future_realStops (p : Prog) (c : Chain) (k j : Nat) : future p { c with realStops := k, iter := j } = future p c :=
+theorem future_realStops (p : Prog) (c : Chain) (k j : Nat) (o : Bool) :
+    future p { c with realStops := k, iter := j, over := o } = future p c :=
   future_congr p _ _ rfl rfl rfl
 
-/-- a step that leaves the chain state (up to the stop counter), the stage-firing calls and the recorded
-success alone keeps the chain invariant -/
-theorem cinv_congr {p : Prog} {w w' : W} (h : CInv p w) (k j : Nat) (hu : w'.u = { w.u with realStops := k, iter := j })
-    (hsd : sdOf w'.calls = sdOf w.calls) (hsucc : w'.sp.success = w.sp.success) : CInv p w' := by
+/-- a step that leaves the chain state (up to the stop counter, the iteration counter and the `over` flag, which is only ever
+raised), the stage-firing calls, the recorded success and the state of the timeout call alone keeps the chain invariant -/
+theorem cinv_congr {p : Prog} {w w' : W} (h : CInv p w) (k j : Nat) (o : Bool)
+    (hu : w'.u = { w.u with realStops := k, iter := j, over := o }) (ho : w.u.over = true → o = true)
+    (hsd : sdOf w'.calls = sdOf w.calls) (hsucc : w'.sp.success = w.sp.success) (htc : w'.sp.tcall = w.sp.tcall) : CInv p w' := by
   have hb : ∀ pre, Book pre w.u → Book pre w'.u := by
     intro pre hb; rw [hu]; exact ⟨hb.forced, hb.logged, hb.dropped, hb.excs, hb.obs, hb.kiMain, hb.kiSome⟩
   rcases h with h | h
@@ -1923,28 +1960,63 @@ theorem cinv_congr {p : Prog} {w w' : W} (h : CInv p w) (k j : Nat) (hu : w'.u =
     refine Or.inr ⟨pre, h1, by rw [hu]; exact h2, by rw [hu]; exact h3, by rw [hsd]; exact h4, hb _ h5,
       by rw [hu]; exact h6, by rw [hu]; exact h7, ?_, ?_⟩
     · intro b hb'; rw [hsucc] at hb'; rw [hu]; exact h8 b hb'
-    · intro hn; rw [hsucc] at hn; rw [hu]; exact h9 hn
+    · intro hn; rw [hsucc] at hn
+      rcases h9 hn with ⟨g1, g2⟩ | g
+      · exact Or.inl ⟨by rw [htc]; exact g1, by rw [hu]; exact ho g2⟩
+      · rw [hu]; exact Or.inr g
 
 theorem realStops_self (c : Chain) : c = { c with realStops := c.realStops } := rfl
 
-theorem cinv_pop {p : Prog} {w : W} (h : CInv p w) (hi : Inv1 p w) (c : DCall (QAct CAct)) (rest : List (DCall (QAct CAct)))
+/-- `hearly`: once `Spinner.run` has left the loop with its timeout call still pending (an interrupt), the clock stands
+still before the timeout instant -/
+theorem cinv_pop {p : Prog} {w : W} (h : CInv p w) (hi : Inv1 p w)
+    (hearly : w.u.over = true → w.sp.tcall = .pending → w.now < p.timeout)
+    (c : DCall (QAct CAct)) (rest : List (DCall (QAct CAct)))
     (hc : w.calls = c :: rest) (hdue : c.time ≤ w.now) : CInv p (execCall (exec p) c { w with calls := rest }) := by
   rcases c with ⟨t, q⟩
   cases q with
   | timeout =>
-    refine cinv_congr h w.u.realStops w.u.iter (by simp [execCall]) ?_ (by simp [execCall])
-    simp only [execCall, execTimeout_calls, hc]; rfl
+    -- the timeout call was pending, and it is due
+    have hp : w.sp.tcall = .pending := by
+      cases htc' : w.sp.tcall with
+      | pending => rfl
+      | _ =>
+        have htc := hi.tcount
+        rw [hc, List.filter_cons_of_pos (by rfl)] at htc
+        simp [htc'] at htc
+    have hT : p.timeout ≤ w.now := by
+      have := hi.ttime ⟨t, .timeout⟩ (by rw [hc]; exact List.mem_cons_self) rfl
+      simp only at this hdue
+      omega
+    have hsdc : sdOf (execCall (exec p) ⟨t, .timeout⟩ { w with calls := rest }).calls = sdOf w.calls := by
+      simp only [execCall, execTimeout_calls, hc]; rfl
+    rcases h with h | h
+    · obtain ⟨pre, n, st, h1, h2, h3, h4, h5, h6, h7, h8, h9, h10, h11⟩ := h.ex
+      exact Or.inl ⟨pre, n, st, by simpa [execCall] using h1, by simpa [execCall] using h2, by simpa [execCall] using h3, h4,
+        by simpa [execCall] using h5, by simpa [execCall] using h6, by rw [hsdc]; simpa [execCall] using h7,
+        by simpa [execCall] using h8, by simpa [execCall] using h9, by simpa [execCall] using h10, by simpa [execCall] using h11⟩
+    · obtain ⟨pre, h1, h2, h3, h4, h5, h6, h7, h8, h9⟩ := h.ex
+      refine Or.inr ⟨pre, h1, by simpa [execCall] using h2, by simpa [execCall] using h3, by rw [hsdc]; exact h4,
+        by simpa [execCall] using h5, by simpa [execCall] using h6, by simpa [execCall] using h7, ?_, ?_⟩
+      · intro b hb'
+        have hb'' : w.sp.success = some b := by simpa [execCall] using hb'
+        simpa [execCall] using h8 b hb''
+      · intro hn
+        have hn' : w.sp.success = none := by simpa [execCall] using hn
+        rcases h9 hn' with ⟨_, g2⟩ | g
+        · have := hearly g2 hp; omega
+        · exact Or.inr (by simpa [execCall] using g)
   | user l a =>
     cases a with
     | noop =>
-      refine cinv_congr h w.u.realStops w.u.iter rfl ?_ rfl
+      refine cinv_congr h w.u.realStops w.u.iter w.u.over rfl id ?_ rfl rfl
       simp only [execCall, exec, logEvent_calls, hc]; rfl
     | stop =>
       simp only [execCall, exec]
       split
-      · refine cinv_congr h w.u.realStops w.u.iter rfl ?_ rfl
+      · refine cinv_congr h w.u.realStops w.u.iter w.u.over rfl id ?_ rfl rfl
         simp only [logEvent_calls, hc]; rfl
-      · refine cinv_congr h (w.u.realStops + 1) w.u.iter rfl ?_ rfl
+      · refine cinv_congr h (w.u.realStops + 1) w.u.iter w.u.over rfl id ?_ rfl rfl
         simp only [logEvent_calls, hc]; rfl
     | stageDone r =>
       rcases h with h | h
@@ -1954,24 +2026,59 @@ theorem cinv_pop {p : Prog} {w : W} (h : CInv p w) (hi : Inv1 p w) (c : DCall (Q
         cases h4
 
 theorem cinv_now {p : Prog} {w : W} (h : CInv p w) (t : Nat) : CInv p { w with now := t } :=
-  cinv_congr h w.u.realStops w.u.iter rfl rfl rfl
+  cinv_congr h w.u.realStops w.u.iter w.u.over rfl id rfl rfl rfl
 
 /-- both invariants together, through `drain` and `spin` -/
 def LInv (p : Prog) (w : W) : Prop := Inv1 p w ∧ CInv p w
 
+/-- what popping and running one call leaves alone: the `over` flag, the clock; and it never makes the timeout call pending -/
+theorem pop_frame2 {p : Prog} (w : W) (c : DCall (QAct CAct)) (rest : List (DCall (QAct CAct))) :
+    (execCall (exec p) c { w with calls := rest }).u.over = w.u.over ∧
+    (execCall (exec p) c { w with calls := rest }).now = w.now ∧
+    ((execCall (exec p) c { w with calls := rest }).sp.tcall = .pending → w.sp.tcall = .pending) := by
+  rcases c with ⟨t, q⟩
+  cases q with
+  | timeout => exact ⟨by simp [execCall], by simp [execCall], fun h => by simp [execCall] at h⟩
+  | user l a =>
+    cases a with
+    | noop => exact ⟨rfl, rfl, id⟩
+    | stop => simp only [execCall, exec]; split <;> exact ⟨rfl, rfl, id⟩
+    | stageDone r =>
+      obtain ⟨k, hk, _⟩ := resume_reach p r (logEvent (.user l) { w with calls := rest })
+      exact Reach.inv (fun w' : W => w'.u.over = w.u.over ∧ w'.now = w.now ∧ (w'.sp.tcall = .pending → w.sp.tcall = .pending))
+        (fun _ _ h => h) (fun w' f hf h => ⟨by rw [updU_u, (hf w'.u).2.2.2.2]; exact h.1, h.2.1, h.2.2⟩) (fun _ _ _ _ h => h)
+        (fun w' b h => ⟨by simpa using h.1, by simpa using h.2.1, fun hp => by
+          by_cases hp' : w'.sp.tcall = .pending
+          · exact h.2.2 hp'
+          · rw [deliver_of_not_pending _ _ hp'] at hp
+            exact absurd (by simpa using hp) hp'⟩) hk ⟨rfl, rfl, id⟩
+
 theorem linv_pop {p : Prog} (w : W) (c : DCall (QAct CAct)) (rest : List (DCall (QAct CAct))) (h : LInv p w)
+    (hearly : w.u.over = true → w.sp.tcall = .pending → w.now < p.timeout)
     (hc : w.calls = c :: rest) (hd : c.time ≤ w.now) : LInv p (execCall (exec p) c { w with calls := rest }) :=
-  ⟨inv1_pop h.1 c rest hc hd, cinv_pop h.2 h.1 c rest hc hd⟩
+  ⟨inv1_pop h.1 c rest hc hd, cinv_pop h.2 h.1 hearly c rest hc hd⟩
 
 theorem linv_nextIter {p : Prog} (w : W) (h : LInv p w) : LInv p (nextIter w) :=
-  ⟨inv1_nextIter h.1, cinv_congr h.2 w.u.realStops (w.u.iter + 1) rfl rfl rfl⟩
+  ⟨inv1_nextIter h.1, cinv_congr h.2 w.u.realStops (w.u.iter + 1) w.u.over rfl id rfl rfl rfl⟩
 
-theorem linv_iterate {p : Prog} (n : Nat) (w : W) (h : LInv p w) : LInv p (iterateB p n w) :=
-  iterateB_inv p (LInv p) linv_pop linv_nextIter n w h
+/-- the invariants during `_clean`'s iterations (the clock stands still) -/
+def LInvE (p : Prog) (w : W) : Prop := LInv p w ∧ (w.u.over = true → w.sp.tcall = .pending → w.now < p.timeout)
 
-theorem linv_spin {p : Prog} (B n : Nat) (w : W) (h : LInv p w) : LInv p (spinB p B n w) :=
-  spinB_inv p B (LInv p) linv_pop linv_nextIter
-    (fun _ c rest h hc hcr => ⟨inv1_adv h.1 c rest hc hcr, cinv_now h.2 _⟩) n w h
+theorem linv_iterate {p : Prog} (n : Nat) (w : W) (h : LInvE p w) : LInvE p (iterateB p n w) :=
+  iterateB_inv p (LInvE p)
+    (fun w c rest h hc hd => ⟨linv_pop w c rest h.1 h.2 hc hd, by
+      obtain ⟨e1, e2, e3⟩ := pop_frame2 (p := p) w c rest
+      intro ho hp; rw [e2]; rw [e1] at ho; exact h.2 ho (e3 hp)⟩)
+    (fun w h => ⟨linv_nextIter w h.1, h.2⟩) n w h
+
+/-- … and while `reactor.run()` runs -/
+theorem linv_spin {p : Prog} (B n : Nat) (w : W) (h : LInv p w) (ho : w.u.over = false) :
+    LInv p (spinB p B n w) ∧ (spinB p B n w).u.over = false :=
+  spinB_inv p B (fun w => LInv p w ∧ w.u.over = false)
+    (fun w c rest h hc hd => ⟨linv_pop w c rest h.1 (fun ho => by rw [h.2] at ho; cases ho) hc hd, by
+      rw [(pop_frame2 (p := p) w c rest).1]; exact h.2⟩)
+    (fun w h => ⟨linv_nextIter w h.1, h.2⟩)
+    (fun _ c rest h hc hcr => ⟨⟨inv1_adv h.1.1 c rest hc hcr, cinv_now h.1.2 _⟩, h.2⟩) n w ⟨h, ho⟩
 
 /-! ## the run: from the start of `Spinner.run` to the end of `_clean`'s iterations -/
 
@@ -2133,6 +2240,14 @@ theorem start_linv (p : Prog) : LInv p (startW p) := by
   obtain ⟨hr, hs, hn⟩ := entry_run p
   exact ⟨inv1_reach hk (entry_inv1 p), startSetUp_cinv hr hs hn⟩
 
+theorem start_over (p : Prog) : (startW p).u.over = false := by
+  obtain ⟨k, hk, _⟩ := startSetUp_reach p (entryW p)
+  have h0 : (entryW p).u.over = false := by
+    obtain ⟨_, h2, _⟩ := prepare_spec p
+    simp [entryW, h2]
+  exact Reach.inv (fun w : W => w.u.over = false) (fun _ _ h => h) (fun w f hf h => by rw [updU_u, (hf w.u).2.2.2.2]; exact h)
+    (fun _ _ _ _ h => h) (fun w b h => by simpa using h) hk h0
+
 theorem entry_calls_length (p : Prog) : (entryW p).calls.length = p.stops.length + 1 := by
   obtain ⟨h1, _, _, _, _, _, h7⟩ := prepare_spec p
   simp [entryW, insert_length, h7]
@@ -2235,9 +2350,12 @@ theorem crashed_pop {p : Prog} {w : W} (h : w.crashed = true) (c : DCall (QAct C
 theorem crashed_iterate {p : Prog} (n : Nat) (w : W) (h : w.crashed = true) : (iterateB p n w).crashed = true :=
   iterateB_inv p (fun w => w.crashed = true) (fun _ c rest h _ _ => crashed_pop h c rest) (fun _ h => h) n w h
 
-theorem linv_flags {p : Prog} {w : W} (h : LInv p w) (a b : Bool) : LInv p { w with running := a, stopPatched := b } :=
-  ⟨⟨h.1.sorted, h.1.ge, h.1.ttime, h.1.tcount, h.1.pend, h.1.called, h.1.cancelled, h.1.nounset, h.1.alive, h.1.stops,
-    h.1.stopcalls, h.1.cause, h.1.born⟩, cinv_congr h.2 w.u.realStops w.u.iter rfl rfl rfl⟩
+/-- the `finally:` of `Spinner.run` (the loop has ended by a crash) -/
+theorem linv_flags {p : Prog} {w : W} (h : LInv p w) (hcr : w.crashed = true) (a b : Bool) :
+    LInv p { w with running := a, stopPatched := b, sp := { w.sp with spinning := false }, u := { w.u with over := true } } :=
+  ⟨⟨h.1.sorted, h.1.ge, h.1.ttime, h.1.tcount, h.1.pend, h.1.called, h.1.cancelled, h.1.nounset,
+    (fun hc => by rw [show w.crashed = true from hcr] at hc; cases hc), h.1.stops,
+    h.1.stopcalls, h.1.cause, h.1.born⟩, cinv_congr h.2 w.u.realStops w.u.iter true rfl (fun _ => rfl) rfl rfl rfl⟩
 
 /-! ### properties of the chain's state alone, through the calls the reactor runs -/
 
@@ -2257,7 +2375,7 @@ theorem pop_uinv {p : Prog} (P : W → Prop)
     | stageDone r =>
       obtain ⟨k, hk, _⟩ := resume_reach p r (logEvent (.user l) { w with calls := rest })
       exact Reach.inv P hlog
-        (fun w f hf h => hfr w _ (hf w.u).2.2.1 (hf w.u).2.2.2 (hf w.u).1 rfl rfl h)
+        (fun w f hf h => hfr w _ (hf w.u).2.2.1 (hf w.u).2.2.2.1 (hf w.u).1 rfl rfl h)
         (fun w _ _ _ h => hfr w _ rfl rfl rfl rfl rfl h)
         (fun w b h => hfr w _ (by simp) (by simp) (by simp) (by simp) (by simp) h) hk (hfr w _ rfl rfl rfl rfl rfl h)
 
@@ -2323,7 +2441,7 @@ theorem start_live (p : Prog) : Live1 (startW p) := by
     obtain ⟨_, h2, _⟩ := prepare_spec p
     exact ⟨rfl, by simp [entryW, h2], by simp [entryW, h2]⟩
   obtain ⟨k, hk, _⟩ := startSetUp_reach p (entryW p)
-  exact Reach.inv Live1 live1_log (fun w f hf h => live1_frame w _ (hf w.u).2.2.1 (hf w.u).2.2.2 rfl h)
+  exact Reach.inv Live1 live1_log (fun w f hf h => live1_frame w _ (hf w.u).2.2.1 (hf w.u).2.2.2.1 rfl h)
     (fun w _ _ _ h => live1_frame w _ rfl rfl rfl h)
     (fun w b h => live1_frame w _ (by simp) (by simp) (by simp) h) hk h0
 
@@ -2335,10 +2453,11 @@ structure SpinEnd (p : Prog) (w : W) : Prop where
   lenLive : w.u.live.length = w.u.stages.length
   allLive : w.u.live.all id = true
   noDue : w.sp.success = none → NoDue w
+  early : w.sp.tcall = .pending → w.now < p.timeout
 
 theorem spin_end (p : Prog) : SpinEnd p (afterSpin p) := by
   have hS := start_linv p
-  have hE : LInv p (spinPhase p (prepare p)) := by rw [spinPhase_eq]; exact linv_spin _ _ _ hS
+  have hE : LInv p (spinPhase p (prepare p)) := by rw [spinPhase_eq]; exact (linv_spin _ _ _ hS (start_over p)).1
   obtain ⟨hd1, hd2, _⟩ := spinB_done p (bound p) (bound p + 1) (startW p) hS.1 (start_pot p) (by have := start_pot p; omega)
   have hsp : spinB p (bound p) (bound p + 1) (startW p) = spinPhase p (prepare p) := (spinPhase_eq p).symm
   rw [hsp] at hd1 hd2
@@ -2351,7 +2470,7 @@ theorem spin_end (p : Prog) : SpinEnd p (afterSpin p) := by
         have htc := hE.1.tcount
         rw [(hE.1.alive hcr).1, h] at htc
         simp at htc
-  have hA : LInv p (afterSpin p) := linv_flags hE false false
+  have hA : LInv p (afterSpin p) := linv_flags hE hcrE false false
   have hst : Static p (spinPhase p (prepare p)) := by
     rw [spinPhase_eq]
     exact spinB_inv p _ (Static p) (fun _ c rest h _ _ => static_pop h c rest) (fun _ h => h) (fun _ _ _ h _ _ => h) _ _
@@ -2360,7 +2479,25 @@ theorem spin_end (p : Prog) : SpinEnd p (afterSpin p) := by
     rw [spinPhase_eq]
     exact spinB_inv p _ Live1 (fun _ c rest h _ _ => live1_pop h c rest) (fun _ h => h) (fun _ _ _ h _ _ => h) _ _
       (start_live p)
-  refine ⟨hA, hcrE, hst, hlv.2.1, hlv.2.2, ?_⟩
+  have hnoDue : (afterSpin p).sp.success = none → NoDue (afterSpin p) := ?_
+  · refine ⟨hA, hcrE, hst, hlv.2.1, hlv.2.2, hnoDue, ?_⟩
+    -- an interrupted run: the timeout call is still queued and was not due
+    intro hp
+    have hnd := hnoDue (hA.1.pend hp).1
+    have htc := hA.1.tcount
+    rw [hp] at htc
+    simp only [if_true] at htc
+    obtain ⟨x, hx⟩ := List.exists_mem_of_length_pos (by omega : 0 < ((afterSpin p).calls.filter (·.act.isTimeout)).length)
+    obtain ⟨hx1, hx2⟩ := List.mem_filter.mp hx
+    have hge := hA.1.ge x hx1
+    have htt := hA.1.ttime x hx1 hx2
+    have hel : eligible (afterSpin p).u.iter x = true := by
+      rcases x with ⟨t, a⟩
+      cases a with
+      | timeout => rfl
+      | user l a => simp [QAct.isTimeout] at hx2
+    have : ¬ x.time ≤ (afterSpin p).now := fun h => hnd x hx1 ⟨h, hel⟩
+    omega
   intro hnone
   -- no success recorded: the chain was suspended when the loop started, so the loop ran and was drained
   have hstart : (startW p).crashed = false := by
@@ -2384,7 +2521,7 @@ theorem spin_end (p : Prog) : SpinEnd p (afterSpin p) := by
 
 /-- after `_clean`'s iterations -/
 structure IterEnd (p : Prog) (w : W) : Prop where
-  linv : LInv p w
+  linve : LInvE p w
   crashed : w.crashed = true
   static : Static p w
   live : Live2 (afterSpin p).u.live w
@@ -2420,18 +2557,18 @@ theorem iterate_now (p : Prog) (n : Nat) (w : W) : (iterateB p n w).now = w.now 
   exact this n (nextIter w)
 
 theorem iterEnd_step {p : Prog} {w : W} (n : Nat) (h : IterEnd p w) : IterEnd p (iterateB p n w) := by
-  refine ⟨linv_iterate n w h.linv, crashed_iterate n w h.crashed, ?_, ?_, ?_, ?_, by rw [iterate_now]; exact h.now⟩
+  refine ⟨linv_iterate n w h.linve, crashed_iterate n w h.crashed, ?_, ?_, ?_, ?_, by rw [iterate_now]; exact h.now⟩
   · exact iterateB_inv p (Static p) (fun _ c rest h _ _ => static_pop h c rest) (fun _ h => h) n w h.static
   · exact iterateB_inv p (Live2 _) (fun _ c rest h _ _ => live2_pop h c rest) (fun _ h => h) n w h.live
   · intro b hb
-    exact (sinv_iterate n w ⟨h.linv.1, h.succ b hb⟩).2
+    exact (sinv_iterate n w ⟨h.linve.1.1, h.succ b hb⟩).2
   · intro hc
-    exact (tinv_iterate n w ⟨h.linv.1, h.called hc⟩).2
+    exact (tinv_iterate n w ⟨h.linve.1.1, h.called hc⟩).2
 
 theorem iter_end (p : Prog) : IterEnd p (afterIter p) := by
   have hs := spin_end p
   have h0 : IterEnd p (afterSpin p) :=
-    ⟨hs.linv, hs.crashed, hs.static, ⟨hs.lenLive, [], by simp⟩, fun _ h => h, id, rfl⟩
+    ⟨⟨hs.linv, fun _ => hs.early⟩, hs.crashed, hs.static, ⟨hs.lenLive, [], by simp⟩, fun _ h => h, id, rfl⟩
   unfold afterIter; split
   · exact iterEnd_step _ (iterEnd_step _ h0)
   · exact h0
@@ -2545,7 +2682,7 @@ structure FinalSem (p : Prog) (pre fut : List (SName × Stage)) : Prop where
 theorem final_sem (p : Prog) : ∃ pre fut, FinalSem p pre fut := by
   have hs := spin_end p
   have he := iter_end p
-  have hi := he.linv.1
+  have hi := he.linve.1.1
   -- what the chain's state after the iterations says
   have hcommon : ∃ pre fut, path p = pre ++ fut ∧ pre.length = (afterIter p).u.stages.length ∧
       seqOk pre (afterIter p).u.stages (some 0) = true ∧ Book pre (afterIter p).u ∧
@@ -2555,7 +2692,7 @@ theorem final_sem (p : Prog) : ∃ pre fut, FinalSem p pre fut := by
         sdOf (afterIter p).calls = []) ∧
       ((afterIter p).sp.tcall = .called → allSyncL pre = false ∧
         ∀ over, overAt (some 0) pre (afterIter p).u.stages = some over → p.timeout ≤ over) := by
-    rcases he.linv.2 with hc | hc
+    rcases he.linve.1.2 with hc | hc
     · obtain ⟨pre0, n, st, h1, h2, h3, h4, h5, h6, h7, h8, h9, h10, h11⟩ := hc.ex
       refine ⟨pre0 ++ [(n, st)], future p (afterIter p).u, h1, h2, h3, h9, ?_, ?_⟩
       · intro b hb; rw [h11] at hb; cases hb
@@ -2572,7 +2709,8 @@ theorem final_sem (p : Prog) : ∃ pre fut, FinalSem p pre fut := by
       · intro b hb
         exact ⟨rfl, (h8 b hb).2, (h8 b hb).1, h7, h4⟩
       · intro hcalled
-        obtain ⟨hsync, over, ho, hle⟩ := h9 (hi.called hcalled).2.2.1
+        rcases h9 (hi.called hcalled).2.2.1 with ⟨hp, _⟩ | ⟨hsync, over, ho, hle⟩
+        · rw [hcalled] at hp; cases hp
         refine ⟨hsync, ?_⟩
         intro over' ho'
         rw [ho] at ho'; injection ho' with ho'; omega
